@@ -490,6 +490,7 @@ func (m *vMachC15) exec(t *rapid.T, op *vOpC15) {
 			t.Fatalf("%s: a crash after %d of %d backend operations leaves the repository without a usable key\n%s\nhistory:\n  %s", op.name, k, len(log), vOpsStringC15(log), m.history())
 		}
 	}
+	removalStates := 0
 	for k, o := range log {
 		switch o.Key.Type {
 		case backend.SnapshotFile:
@@ -499,6 +500,22 @@ func (m *vMachC15) exec(t *rapid.T, op *vOpC15) {
 		}
 		prefixOK(k + 1)
 		m.st.Evals(1)
+		if o.Remove && (o.Key.Type == backend.PackFile || o.Key.Type == backend.IndexFile) && removalStates < 3 && k+1 < len(log) {
+			// the moment a pack or index file disappears: whatever replaces it must already be in
+			// place (first three removals of a command; a crash here is one of the interruptions
+			// the statement quantifies over, the drawn crash point below samples the same space)
+			removalStates++
+			s := st.StateAt(k + 1)
+			s.DropLocks()
+			ce := r.env.OnStore(s)
+			cout, cerr := ce.Check(false)
+			ce.Release()
+			m.st.Class("removal-state-checked")
+			m.st.Evals(1)
+			if cerr != nil {
+				t.Fatalf("%s: a crash right after %s was removed (%d of %d backend operations) leaves a repository that check rejects: %v\n%s%s\n%s\nhistory:\n  %s", op.name, o.Key, k+1, len(log), cerr, cout.Stdout, cout.Stderr, vOpsStringC15(log), m.history())
+			}
+		}
 		if o.Key.Type == backend.SnapshotFile && !o.Remove && k+1 < len(log) {
 			// the moment a snapshot file exists it is what a crash leaves behind: everything it
 			// refers to must already be stored AND indexed (check without --read-data: structure only)
